@@ -20,6 +20,11 @@ MCWFItemsNest == MCItemsNest
 MCAddrsNest   == {"inA", "inAn", "isAh", "out4", "inC", "inCn"}
 MCMemberAll   == MCMember \cup {<<"inAn", "A">>, <<"inAn", "An">>, <<"isAh", "A">>, <<"isAh", "An">>, <<"isAh", "Ah">>,
                                  <<"inCn", "C">>, <<"inCn", "Cn">>}
+\* other options of the same target: none; valid ones (strip=<path>, host=dst, tlsskipverify=true); malformed / unknown ones
+\* (redirect=3O1, redirect=200 - not a 3xx code -, proto=<unknown>, an option fabio does not know)
+MCOthersNone  == {""}
+MCOthersAll   == {"", "strip", "hostdst", "tlsskip", "redirect-alpha", "redirect-range", "proto-unknown", "unknown-option"}
+MCOthersValid == {"", "strip", "hostdst", "tlsskip"}
 MCSchemes == {"", "basic1", "nosuch"}
 MCKnown   == {"basic1"}
 MCCreds   == {"none", "good", "bad", "malformed"}
@@ -39,7 +44,7 @@ MCHttp == {"http"}
 MCTcp  == {"tcp"}
 MCBoth == {"http", "tcp"}
 
-CaseJson(r, q) == [allow |-> r.allow, deny |-> r.deny,
+CaseJson(r, q) == [allow |-> r.allow, deny |-> r.deny, other |-> r.other,
                    proto |-> q.proto, peer |-> q.peer, xff |-> q.xff, scheme |-> q.scheme, creds |-> q.creds,
                    pre |-> q.pre, suf |-> q.suf, fill |-> q.fill,
                    may |-> MayAdmit(r, q), must |-> MustAdmit(r, q), auth |-> AuthOK(q),
